@@ -32,7 +32,7 @@ func runC17(p *core.Program, r *core.Report) {
 	c17R4(p, r, "devpkg/deepcopygen", "devpkg/deepcopygen/helper")
 	r.Floor("R5", 1)
 	a10Report(p, r, "R5", "devpkg/deepcopygen", "devpkg/deepcopygen/helper")
-	processedGuard(p, r, "R2", "devpkg/deepcopygen", "(*deepcopyGen).generateType")
+	processedGuard(p, r, "R2", "devpkg/deepcopygen", generatorWorkerName(p, "devpkg/deepcopygen", "(*deepcopyGen).generateType"))
 	c17R7(p, r)
 	generatorOrderSources(p, r, "R6", "devpkg/deepcopygen", "devpkg/deepcopygen/helper")
 	c17R8(p, r)
@@ -52,7 +52,7 @@ func runC17(p *core.Program, r *core.Report) {
 func c17R8(p *core.Program, r *core.Report) {
 	const rule = "R8"
 	r.Floor(rule, 2)
-	f := p.FuncByName("devpkg/deepcopygen", "(*deepcopyGen).generateType")
+	f := p.FuncByName("devpkg/deepcopygen", generatorWorkerName(p, "devpkg/deepcopygen", "(*deepcopyGen).generateType"))
 	if f == nil {
 		r.Anchor(rule, "devpkg/deepcopygen.(*deepcopyGen).generateType")
 		return
@@ -747,7 +747,7 @@ func c17R10(p *core.Program, r *core.Report) {
 	const rule = "R10"
 	r.Floor(rule, 1)
 	cf := p.FuncByName("devpkg/deepcopygen/helper", "(*StructFieldsCopy).createFieldSnippet")
-	gt := p.FuncByName("devpkg/deepcopygen", "(*deepcopyGen).generateType")
+	gt := p.FuncByName("devpkg/deepcopygen", generatorWorkerName(p, "devpkg/deepcopygen", "(*deepcopyGen).generateType"))
 	if cf == nil || gt == nil {
 		r.Anchor(rule, "createFieldSnippet of the copy helper and generateType of the deepcopy generator")
 		return
@@ -826,16 +826,28 @@ func isSentinel(info *types.Info, e ast.Expr) bool {
 func c17R11(p *core.Program, r *core.Report) {
 	const rule = "R11"
 	r.Floor(rule, 1)
-	gt := p.FuncByName("devpkg/deepcopygen", "(*deepcopyGen).generateType")
+	gt := p.FuncByName("devpkg/deepcopygen", generatorWorkerName(p, "devpkg/deepcopygen", "(*deepcopyGen).generateType"))
 	if gt == nil {
 		r.Anchor(rule, "devpkg/deepcopygen.(*deepcopyGen).generateType")
 		return
 	}
 	info := gt.Info()
+	// the worker is (re-)entered for dependencies: it calls itself, or is called from a loop of the package
 	recursive := false
 	for _, c := range core.Calls(gt.Body, true) {
 		if core.CalleeFunc(info, c) == gt.Obj() {
 			recursive = true
+		}
+	}
+	for _, cs := range allCalls(p) {
+		if cs.In.Body == nil || core.CalleeFunc(cs.In.Info(), cs.Call) != gt.Obj() {
+			continue
+		}
+		for _, nd := range core.PathTo(cs.In.Body, cs.Call) {
+			switch nd.(type) {
+			case *ast.ForStmt, *ast.RangeStmt:
+				recursive = true
+			}
 		}
 	}
 	n := 0
@@ -917,4 +929,43 @@ func c17R12(p *core.Program, r *core.Report) {
 	if n == 0 {
 		r.Anchor(rule, "local *FieldContext of createFieldSnippet")
 	}
+}
+
+// generatorWorkerName: the function of a generator package that does the work for one type: the one that marks the
+// type in the generator's `processed` set (a store of `true` into a map[*types.Named]bool field of the receiver). It is
+// the named function unless the marking moved (recursion turned into a work list with a per-type function).
+func generatorWorkerName(p *core.Program, rel, deflt string) string {
+	for _, f := range p.Funcs() {
+		if core.RelPkg(f.Pkg.PkgPath) != rel || f.Decl == nil || f.Decl.Recv == nil || f.Body == nil {
+			continue
+		}
+		info := f.Info()
+		found := false
+		ast.Inspect(f.Body, func(n ast.Node) bool {
+			as, ok := n.(*ast.AssignStmt)
+			if !ok || len(as.Lhs) != 1 || len(as.Rhs) != 1 {
+				return true
+			}
+			ix, ok := ast.Unparen(as.Lhs[0]).(*ast.IndexExpr)
+			if !ok {
+				return true
+			}
+			fld := core.FieldOf(info, ix.X)
+			if fld == nil {
+				return true
+			}
+			m, isMap := fld.Type().Underlying().(*types.Map)
+			if !isMap || !isBasicKind(m.Elem(), types.Bool) || core.NamedTypeName(m.Key()) != "go/types.Named" {
+				return true
+			}
+			if tv := info.Types[as.Rhs[0]]; tv.Value != nil && tv.Value.String() == "true" {
+				found = true
+			}
+			return true
+		})
+		if found {
+			return f.Name
+		}
+	}
+	return deflt
 }
